@@ -15,6 +15,7 @@ fn profile() -> Profile {
         max_clusters: 24,
         depth_weights: [75, 20, 4, 1],
         sched_pct: 20,
+        wide_l1_pct: 25,
         ..Profile::default()
     }
 }
@@ -117,6 +118,10 @@ impl Domain for FaultDomain {
         add(st.leaks_tolerated > 0, "leak_tolerated");
         add(st.uncertain_blocks > 0, "failed_write_left_uncertain_blocks");
         add(case.seq.layers.len() > 1, "backing_chain");
+        add(
+            case.seq.layers[0].vsize().div_ceil(1u64 << (2 * case.seq.layers[0].cluster_bits() as u32 - 3)) > 64,
+            "l1_spans_several_blocks",
+        );
         CaseResult {
             verdict,
             nontrivial: st.failed_meta_or_fsync > 0 && st.reopen_compares > 0,
@@ -160,13 +165,13 @@ impl Prop for C17 {
         vec![
             Box::new(FaultDomain {
                 name: "singles",
-                quick: 400,
+                quick: 1_000,
                 thorough: 20_000,
                 enumerate: true,
             }),
             Box::new(FaultDomain {
                 name: "plans",
-                quick: 3_000,
+                quick: 10_000,
                 thorough: 150_000,
                 enumerate: false,
             }),
